@@ -39,7 +39,7 @@ def main(tier, replay=None):
     p = lib.Parser()
     run.rule = ('one observation per day / time / ISO text / date pair / (date, month offset); distinct by input; non-trivial = all')
     run.assumptions = ['serials only from 1 March 1900 (C13 owns the serials before); YEAR/MONTH/DAY/WEEKDAY of dates also for January and February 1900', 'DAYS with start after end may be the negative '
-                       'difference or #NUM!', 'WEEKDAY numbering types of newer Excel versions (11..17) are not exercised as valid',
+                       'difference or #NUM!', 'WEEKDAY numbering types other than 1-3 (those of newer Excel versions, 11..17 and 21, included) must give #NUM!',
                        'ISO text is yyyy-mm-ddThh:mm:ss or with a space']
     quick = tier == 'quick'
     if replay:
@@ -80,6 +80,13 @@ def main(tier, replay=None):
         obs.append(dates.iso_obs(p, y, mo, d, rng.randint(0, 23), rng.randint(0, 59), rng.randint(0, 59), rng.choice('T ')))
     for y in list(range(0, 1900, 7 if quick else 1)) + [0, 1, 99, 100, 1899]:
         obs.append(dates.year_obs(p, y, rng.randint(3, 12), rng.randint(1, 28)))
+    for y in (0, 4, 96, 100, 104, 496, 500, 900, 1300, 1700, 1896, 1899, 1):
+        for m, d in ((2, 29), (2, 28), (12, 31), (1, 31)):
+            try:
+                datetime.datetime(1900 + y, m, d)
+            except ValueError:
+                continue
+            obs.append(dates.year_obs(p, y, m, d))
     bd = boundary_dates()
     pairs = list(itertools.product(bd, bd))
     if quick:
@@ -98,7 +105,7 @@ def main(tier, replay=None):
     for _ in range(2000 if quick else 60000):
         a = dates.EPOCH + datetime.timedelta(days=rng.randint(61, dates.LAST))
         obs.append(dates.edate_obs(p, a, rng.choice([rng.randint(-48, 48), rng.randint(-120000, 120000)])))
-    for t in (0, 4, 5, 10, 18, -1, 100):
+    for t in (0, 4, 5, 10, 11, 12, 13, 14, 15, 16, 17, 18, 21, -1, 100):
         for n in (61, 43831, dates.LAST):
             obs.append(dates.wtype_obs(p, n, t))
     for n, o in enumerate(obs, 1):
